@@ -261,17 +261,29 @@ def run(ck):
     common = [vlib.REPO + "/src/Math/KrigingErrors.cxx", vlib.REPO + "/src/Math/LUException.cxx",
               vlib.REPO + "/src/Math/MathException.cxx", vlib.REPO + "/src/Exception/TFELException.cxx",
               vlib.REPO + "/src/Exception/ContractViolation.cxx"]
-    bins = ck.cxx_many([
-        ("c19trace", ["C19/trace.cxx", vlib.REPO + "/src/Exception/ContractViolation.cxx"]),
-        ("c19h", ["C19/harness.cxx", vlib.REPO + "/src/Math/KrigedFunction.cxx",
-                  vlib.REPO + "/src/Math/ExternalFunction.cxx"] + common),
-        ("c19x", ["C19/exact.cxx"] + common),
-    ], sanitize=True, opt="-O0", includes=[vlib.REPO + "/src/Math"])
-    # ---- T1: regenerate the covariances / drifts / nugget from the current headers
-    dag, units = t1.run_tracer(ck, bins["c19trace"])
+    from concurrent.futures import ThreadPoolExecutor
+    # ---- T1 first: regenerate the covariances / drifts / nugget from the current headers
+    tracer = ck.cxx("c19trace", ["C19/trace.cxx", vlib.REPO + "/src/Exception/ContractViolation.cxx"], opt="-O0")
+    dag, units = t1.run_tracer(ck, tracer)
     ck.emit([dag], "TfelVerif.C19.Gen", "TfelVerif/C19/Gen.lean")
-    driver = ck.lean_exe("c19driver", "TfelVerif/C19/Driver.lean")
-    res = ck.lean(PROPS, PROPS)
+
+    # ---- then, side by side: the Lean build (driver + theorems) and the correspondence harnesses
+    # (the double harness is compiled in two parts, see harness/C19/harness.cxx)
+    def lean_side():
+        return ck.lean_exe("c19driver", "TfelVerif/C19/Driver.lean"), ck.lean(PROPS, PROPS)
+
+    def cxx_side():
+        return ck.cxx_many([
+            ("c19h1", ["C19/harness.cxx", vlib.REPO + "/src/Math/KrigedFunction.cxx",
+                       vlib.REPO + "/src/Math/ExternalFunction.cxx"] + common, ["-DC19_PART=1"]),
+            ("c19h2", ["C19/harness.cxx"] + common, ["-DC19_PART=2"]),
+            ("c19x", ["C19/exact.cxx"] + common),
+        ], sanitize=True, opt="-O0", includes=[vlib.REPO + "/src/Math"])
+    with ThreadPoolExecutor(max_workers=2) as ex:
+        fl = ex.submit(lean_side)
+        fc = ex.submit(cxx_side)
+        bins = fc.result()
+        driver, res = fl.result()
 
     # ---- requests
     reqs = []
@@ -299,11 +311,17 @@ def run(ck):
         if KINDS[kind][0] >= 2 and kind not in ("cu",):
             reqs.append(make_request(rng, kind, lo + 4, "collinear"))
     text = "".join(r["line"] + "\n" for r in reqs)
-    pi = ck.run([bins["c19h"]], input=text, timeout=1500)
-    if pi.returncode != 0:
-        ck.violation("harness-crash", "the implementation harness aborted (sanitizer or crash)",
-                     {"stderr": pi.stderr[-3000:]}, False)
-    impl = pi.stdout.splitlines()
+    parts = []
+    for b in ("c19h1", "c19h2"):
+        pi = ck.run([bins[b]], input=text, timeout=1500)
+        if pi.returncode != 0:
+            ck.violation("harness-crash", "the implementation harness aborted (sanitizer or crash)",
+                         {"part": b, "stderr": pi.stderr[-3000:]}, False)
+        parts.append(pi.stdout.splitlines())
+    impl = []
+    for i in range(len(reqs)):
+        ans = [p[i] for p in parts if i < len(p) and p[i] != "skip"]
+        impl.append(ans[0] if len(ans) == 1 else "missing")
     # the unknowns computed by the real solver are handed to the model (the solve is not modelled)
     mlines = []
     for i, r in enumerate(reqs):
